@@ -1,1 +1,322 @@
+(* C16 — lemmas about the crash model: toy file system, cache, shape of one update. *)
+From Coq Require Import List Arith Bool ZArith Lia.
 From PV Require Import C16.Model C16.Spec.
+Import ListNotations.
+
+(* ---------- decidable equalities ---------------------------------------- *)
+
+Lemma kind_eqb_eq a b : kind_eqb a b = true <-> a = b.
+Proof. destruct a, b; cbn; split; intros H; congruence. Qed.
+
+Lemma oe_eqb_eq a b : oe_eqb a b = true <-> a = b.
+Proof.
+  destruct a as [x|], b as [y|]; cbn; split; intros H; try congruence.
+  - apply Nat.eqb_eq in H; congruence.
+  - injection H as ->; apply Nat.eqb_refl.
+Qed.
+
+Lemma path_eqb_eq p q : path_eqb p q = true <-> p = q.
+Proof.
+  destruct p as [k e|c k], q as [k' e'|c' k']; cbn; split; intros H; try congruence.
+  - apply andb_true_iff in H as [H1 H2].
+    apply kind_eqb_eq in H1; apply oe_eqb_eq in H2; congruence.
+  - injection H as -> ->. apply andb_true_iff; split; [apply kind_eqb_eq|apply oe_eqb_eq]; reflexivity.
+  - apply andb_true_iff in H as [H1 H2].
+    apply Nat.eqb_eq in H1; apply kind_eqb_eq in H2; congruence.
+  - injection H as -> ->. apply andb_true_iff; split; [apply Nat.eqb_refl|apply kind_eqb_eq; reflexivity].
+Qed.
+
+Lemma path_eqb_refl p : path_eqb p p = true.
+Proof. apply path_eqb_eq; reflexivity. Qed.
+
+Lemma path_eqb_neq p q : p <> q -> path_eqb p q = false.
+Proof. intros H. destruct (path_eqb p q) eqn:E; [apply path_eqb_eq in E; contradiction|reflexivity]. Qed.
+
+Lemma path_eqb_false p q : path_eqb p q = false -> p <> q.
+Proof. intros H ->. rewrite path_eqb_refl in H; discriminate. Qed.
+
+Lemma path_eq_dec (p q : path) : {p = q} + {p <> q}.
+Proof.
+  destruct (path_eqb p q) eqn:E; [left; apply path_eqb_eq; exact E|right; apply path_eqb_false; exact E].
+Qed.
+
+(* ---------- the file map -------------------------------------------------- *)
+
+Lemma fs_get_del_same p fs : fs_get p (fs_del p fs) = None.
+Proof.
+  induction fs as [|[q v] t IH]; cbn; [reflexivity|].
+  destruct (path_eqb q p) eqn:E; [exact IH|]. cbn. rewrite E. exact IH.
+Qed.
+
+Lemma fs_get_del_other p q fs : p <> q -> fs_get q (fs_del p fs) = fs_get q fs.
+Proof.
+  intros Hne. induction fs as [|[x v] t IH]; cbn; [reflexivity|].
+  destruct (path_eqb x p) eqn:E.
+  - apply path_eqb_eq in E; subst x. rewrite (path_eqb_neq p q Hne). exact IH.
+  - cbn. destruct (path_eqb x q); [reflexivity|exact IH].
+Qed.
+
+Lemma fs_get_set_same p v fs : fs_get p (fs_set p v fs) = Some v.
+Proof. unfold fs_set; cbn. rewrite path_eqb_refl; reflexivity. Qed.
+
+Lemma fs_get_set_other p q v fs : p <> q -> fs_get q (fs_set p v fs) = fs_get q fs.
+Proof.
+  intros Hne. unfold fs_set; cbn. rewrite (path_eqb_neq p q Hne). apply fs_get_del_other; exact Hne.
+Qed.
+
+Lemma fs_get_del p q fs :
+  fs_get q (fs_del p fs) = if path_eqb p q then None else fs_get q fs.
+Proof.
+  destruct (path_eqb p q) eqn:E.
+  - apply path_eqb_eq in E; subst; apply fs_get_del_same.
+  - apply fs_get_del_other, path_eqb_false; exact E.
+Qed.
+
+Lemma fs_get_set p q v fs :
+  fs_get q (fs_set p v fs) = if path_eqb p q then Some v else fs_get q fs.
+Proof.
+  destruct (path_eqb p q) eqn:E.
+  - apply path_eqb_eq in E; subst; apply fs_get_set_same.
+  - apply fs_get_set_other, path_eqb_false; exact E.
+Qed.
+
+(* ---------- mem / dedup / order_by --------------------------------------- *)
+
+Lemma mem_In p l : mem p l = true <-> In p l.
+Proof.
+  unfold mem. rewrite existsb_exists. split.
+  - intros [x [Hx E]]. apply path_eqb_eq in E; subst; exact Hx.
+  - intros H; exists p; split; [exact H|apply path_eqb_refl].
+Qed.
+
+Lemma mem_false p l : mem p l = false <-> ~ In p l.
+Proof.
+  split; intros H.
+  - intros Hin. apply mem_In in Hin. congruence.
+  - destruct (mem p l) eqn:E; [apply mem_In in E; contradiction|reflexivity].
+Qed.
+
+Lemma dedup_In p l : In p (dedup l) <-> In p l.
+Proof.
+  induction l as [|x t IH]; cbn; [tauto|].
+  destruct (mem x t) eqn:E.
+  - rewrite IH. split; [tauto|]. intros [->|H]; [apply mem_In; exact E|exact H].
+  - cbn. rewrite IH. tauto.
+Qed.
+
+Lemma order_by_In ro l p : In p (order_by ro l) <-> In p l.
+Proof.
+  unfold order_by. rewrite in_app_iff, !filter_In, dedup_In. split.
+  - intros [[_ H]|[H _]]; [apply mem_In; exact H|exact H].
+  - intros H. destruct (mem p ro) eqn:E.
+    + left; split; [apply mem_In; exact E|apply mem_In; exact H].
+    + right; split; [exact H|reflexivity].
+Qed.
+
+(* ---------- what a list of operations does -------------------------------- *)
+
+Definition fapply (fs : fsmap) (o : fsop) : fsmap :=
+  match o with
+  | MkTmp t => fs_set t empty_content fs
+  | Fill t v => fs_set t v fs
+  | Replace s t => match fs_get s fs with Some v => fs_set t v (fs_del s fs) | None => fs end
+  | Append _ => fs
+  | Remove p => fs_del p fs
+  end.
+
+Definition appended (o : fsop) : list row := match o with Append r => [r] | _ => [] end.
+
+Lemma apply_op_files d o : files (apply_op d o) = fapply (files d) o.
+Proof. destruct o; cbn; try reflexivity. destruct (fs_get src (files d)); reflexivity. Qed.
+
+Lemma apply_op_csv d o : csv (apply_op d o) = csv d ++ appended o.
+Proof.
+  destruct o; cbn; rewrite ?app_nil_r; try reflexivity.
+  destruct (fs_get src (files d)); cbn; rewrite ?app_nil_r; reflexivity.
+Qed.
+
+Lemma apply_ops_files ops : forall d, files (apply_ops d ops) = fold_left fapply ops (files d).
+Proof.
+  induction ops as [|o t IH]; intros d; [reflexivity|].
+  cbn [apply_ops fold_left]. change (fold_left apply_op t (apply_op d o)) with (apply_ops (apply_op d o) t).
+  rewrite IH, apply_op_files. reflexivity.
+Qed.
+
+Lemma apply_ops_csv ops : forall d, csv (apply_ops d ops) = csv d ++ flat_map appended ops.
+Proof.
+  induction ops as [|o t IH]; intros d; cbn [flat_map]; [rewrite app_nil_r; reflexivity|].
+  cbn [apply_ops fold_left]. change (fold_left apply_op t (apply_op d o)) with (apply_ops (apply_op d o) t).
+  rewrite IH, apply_op_csv, app_assoc. reflexivity.
+Qed.
+
+Lemma apply_ops_app d a b : apply_ops d (a ++ b) = apply_ops (apply_ops d a) b.
+Proof. unfold apply_ops. apply fold_left_app. Qed.
+
+(* the paths an operation can change *)
+Definition touches (o : fsop) : list path :=
+  match o with
+  | MkTmp t => [t] | Fill t _ => [t] | Replace s t => [s; t] | Append _ => [] | Remove p => [p]
+  end.
+
+Lemma fapply_untouched q fs o : ~ In q (touches o) -> fs_get q (fapply fs o) = fs_get q fs.
+Proof.
+  destruct o; cbn; intros H.
+  - apply fs_get_set_other; intuition.
+  - apply fs_get_set_other; intuition.
+  - destruct (fs_get src fs); [|reflexivity].
+    rewrite fs_get_set_other, fs_get_del_other by intuition. reflexivity.
+  - reflexivity.
+  - apply fs_get_del_other; intuition.
+Qed.
+
+Lemma fold_untouched q ops : forall fs,
+  (forall o, In o ops -> ~ In q (touches o)) ->
+  fs_get q (fold_left fapply ops fs) = fs_get q fs.
+Proof.
+  induction ops as [|o t IH]; intros fs H; [reflexivity|].
+  cbn [fold_left]. rewrite IH by (intros; apply H; right; assumption).
+  apply fapply_untouched, H; left; reflexivity.
+Qed.
+
+Lemma fold_removes q l : forall fs,
+  fs_get q (fold_left fapply (map Remove l) fs) = if mem q l then None else fs_get q fs.
+Proof.
+  induction l as [|p t IH]; intros fs; [reflexivity|].
+  cbn [map fold_left fapply]. rewrite IH. cbn [mem existsb].
+  fold (mem q t). destruct (mem q t); [rewrite orb_true_r; reflexivity|].
+  rewrite orb_false_r, fs_get_del.
+  destruct (path_eqb p q) eqn:E.
+  - apply path_eqb_eq in E; subst. rewrite path_eqb_refl; reflexivity.
+  - destruct (path_eqb q p) eqn:E'; [apply path_eqb_eq in E'; subst; rewrite path_eqb_refl in E; discriminate|reflexivity].
+Qed.
+
+(* save_model_and_optimizer_with_info, run to the end *)
+Lemma save_ops_get P cn e v fs q :
+  fs_get q (fold_left fapply (save_ops P cn e v) fs) =
+  if path_eqb (pth P KO e) q then Some v
+  else if path_eqb (pth P KM e) q then Some v
+  else if path_eqb (Tmp cn KO) q then None
+  else if path_eqb (Tmp cn KM) q then None
+  else fs_get q fs.
+Proof.
+  unfold save_ops. cbn [fold_left fapply].
+  assert (T1 : fs_get (Tmp cn KM)
+                 (fs_set (Tmp cn KO) v (fs_set (Tmp cn KO) empty_content
+                   (fs_set (Tmp cn KM) v (fs_set (Tmp cn KM) empty_content fs)))) = Some v).
+  { rewrite !fs_get_set. cbn [path_eqb kind_eqb]. rewrite Nat.eqb_refl. cbn. reflexivity. }
+  rewrite T1.
+  assert (T2 : fs_get (Tmp cn KO)
+                 (fs_set (pth P KM e) v (fs_del (Tmp cn KM)
+                   (fs_set (Tmp cn KO) v (fs_set (Tmp cn KO) empty_content
+                     (fs_set (Tmp cn KM) v (fs_set (Tmp cn KM) empty_content fs)))))) = Some v).
+  { rewrite fs_get_set. unfold pth at 1. cbn [path_eqb].
+    rewrite fs_get_del. cbn [path_eqb kind_eqb]. rewrite Nat.eqb_refl. cbn [andb].
+    rewrite fs_get_set. cbn [path_eqb kind_eqb]. rewrite Nat.eqb_refl. reflexivity. }
+  rewrite T2.
+  repeat (rewrite fs_get_set || rewrite fs_get_del).
+  destruct (path_eqb (pth P KO e) q); [reflexivity|].
+  destruct (path_eqb (Tmp cn KO) q) eqn:E2.
+  - apply path_eqb_eq in E2; subst q. unfold pth. cbn [path_eqb]. reflexivity.
+  - destruct (path_eqb (pth P KM e) q); [reflexivity|].
+    destruct (path_eqb (Tmp cn KM) q); reflexivity.
+Qed.
+
+(* ... and any prefix of it only touches the temporary files and the two targets *)
+Lemma save_ops_touches P cn e v o q :
+  In o (save_ops P cn e v) -> In q (touches o) ->
+  q = Tmp cn KM \/ q = Tmp cn KO \/ q = pth P KM e \/ q = pth P KO e.
+Proof.
+  unfold save_ops. cbn [In]. intros [<-|[<-|[<-|[<-|[<-|[<-|[]]]]]]]; cbn [touches In]; intuition.
+Qed.
+
+Lemma In_firstn {A} (x : A) k l : In x (firstn k l) -> In x l.
+Proof.
+  revert l; induction k as [|k IH]; intros [|y t]; cbn; try tauto.
+  intros [->|H]; [left; reflexivity|right; apply IH; exact H].
+Qed.
+
+(* ---------- the cache ------------------------------------------------------ *)
+
+Lemma cache_set_fresh r c : ~ In (r_epoch r) (map r_epoch c) -> cache_set r c = c ++ [r].
+Proof.
+  induction c as [|x t IH]; cbn; intros H; [reflexivity|].
+  destruct (Nat.eqb (r_epoch x) (r_epoch r)) eqn:E.
+  - apply Nat.eqb_eq in E. exfalso; apply H; left; exact E.
+  - f_equal. apply IH. intros Hin; apply H; right; exact Hin.
+Qed.
+
+Lemma read_cache_snoc l r : read_cache (l ++ [r]) = cache_set r (read_cache l).
+Proof. unfold read_cache. rewrite fold_left_app. reflexivity. Qed.
+
+Lemma read_cache_nodup l : NoDup (map r_epoch l) -> read_cache l = l.
+Proof.
+  induction l as [|r t IH] using rev_ind; intros H; [reflexivity|].
+  rewrite read_cache_snoc. rewrite map_app in H. cbn in H.
+  apply NoDup_remove in H as [H1 H2]. rewrite app_nil_r in H1, H2.
+  rewrite IH by exact H1. apply cache_set_fresh. exact H2.
+Qed.
+
+Lemma last_epoch_snoc c r : last_epoch (c ++ [r]) = Nat.max (last_epoch c) (r_epoch r).
+Proof. unfold last_epoch. rewrite fold_left_app. reflexivity. Qed.
+
+Lemma seq_snoc a n : seq a (S n) = seq a n ++ [a + n].
+Proof. rewrite seq_S. reflexivity. Qed.
+
+Lemma last_epoch_seq : forall n c, map r_epoch c = seq 1 n -> last_epoch c = n.
+Proof.
+  induction n as [|n IH]; intros c H.
+  - destruct c; [reflexivity|discriminate].
+  - rewrite seq_snoc in H.
+    destruct (exists_last (l := c)) as [c' [r ->]].
+    { intros ->. cbn in H. destruct (seq 1 n); discriminate. }
+    rewrite map_app in H. cbn [map] in H. apply app_inj_tail in H as [H1 H2].
+    rewrite last_epoch_snoc, (IH c' H1), H2. lia.
+Qed.
+
+Definition best_state (b : bool) (c : cache) : nat * option Z := fold_left (best_step b) c (0, None).
+
+Lemma best_epoch_snoc b c r :
+  best_epoch b (c ++ [r]) =
+  if lt_inf (met b r) (snd (best_state b c)) then r_epoch r else best_epoch b c.
+Proof.
+  unfold best_epoch, best_state. rewrite fold_left_app. cbn [fold_left]. unfold best_step at 1.
+  destruct (lt_inf (met b r) (snd (fold_left (best_step b) c (0, None)))); reflexivity.
+Qed.
+
+Lemma best_epoch_In b c : best_epoch b c = 0 \/ In (best_epoch b c) (map r_epoch c).
+Proof.
+  induction c as [|r t IH] using rev_ind; [left; reflexivity|].
+  rewrite best_epoch_snoc, map_app, in_app_iff. cbn [map In].
+  destruct (lt_inf _ _); [right; right; left; reflexivity|]. tauto.
+Qed.
+
+Lemma best_epoch_le b c n : map r_epoch c = seq 1 n -> best_epoch b c <= n.
+Proof.
+  intros H. destruct (best_epoch_In b c) as [->|Hin]; [lia|].
+  rewrite H in Hin. apply in_seq in Hin. lia.
+Qed.
+
+(* decisions only look at epochs and metrics, never at the tag column *)
+Lemma best_state_hrow b c1 c2 : map hrow c1 = map hrow c2 -> best_state b c1 = best_state b c2.
+Proof.
+  unfold best_state. generalize (0, @None Z).
+  revert c2; induction c1 as [|x t IH]; intros [|y u] st H; try discriminate; [reflexivity|].
+  cbn [map] in H.
+  pose proof (f_equal (@hd _ (hrow x)) H) as Hxy. pose proof (f_equal (@tl _) H) as Ht.
+  cbn [hd tl] in Hxy, Ht. cbn [fold_left].
+  assert (E : best_step b st x = best_step b st y).
+  { assert (r_epoch x = r_epoch y /\ r_train x = r_train y /\ r_val x = r_val y) as (E1 & E2 & E3)
+      by (unfold hrow in Hxy; injection Hxy; auto).
+    unfold best_step, met. rewrite E1, E2, E3. reflexivity. }
+  rewrite E. apply IH; exact Ht.
+Qed.
+
+Lemma best_epoch_hrow b c1 c2 : map hrow c1 = map hrow c2 -> best_epoch b c1 = best_epoch b c2.
+Proof. intros H. unfold best_epoch. change (fst (best_state b c1) = fst (best_state b c2)). rewrite (best_state_hrow b c1 c2 H). reflexivity. Qed.
+
+Lemma hrow_epochs c1 c2 : map hrow c1 = map hrow c2 -> map r_epoch c1 = map r_epoch c2.
+Proof.
+  intros H. assert (E : forall c, map r_epoch c = map fst (map hrow c)).
+  { intros c. rewrite map_map. reflexivity. }
+  rewrite !E, H. reflexivity.
+Qed.
